@@ -315,4 +315,40 @@ theorem encFrom_length (d : Bytes) (i : Nat) (hi : i ≤ d.size) :
         · exact absurd hq hne
   · rw [encFrom_end d i (by omega)]; simp
 
+/-! ### The encoder output as a list of valid chunks -/
+
+theorem encFrom_chunks (d : Bytes) (i : Nat) (hi : i ≤ d.size) :
+    ∃ cs : List Chunk, encFrom d i = cs.flatMap Chunk.emit ∧
+      cs.flatMap Chunk.content = d.toList.drop i ∧ ∀ c ∈ cs, c.Valid := by
+  induction hn : d.size - i using Nat.strongRecOn generalizing i with
+  | _ n ih =>
+  by_cases h : i < d.size
+  · rcases encFrom_step d i h with ⟨j, _, h1, h2, h3, h4, _, he⟩ | ⟨j, _, h1, h2, h3, _, he⟩
+    · obtain ⟨cs, c1, c2, c3⟩ := ih (d.size - (j + 1)) (by omega) (j + 1) (by omega) rfl
+      refine ⟨.run (j - i + 1) d[i] :: cs, ?_, ?_, ?_⟩
+      · rw [he, c1]
+        simp only [List.flatMap_cons, Chunk.emit, List.cons_append, List.nil_append]
+        have : 257 - (j - i + 1) = 256 - (j - i) := by omega
+        rw [this]
+      · simp only [List.flatMap_cons, Chunk.content, c2]
+        exact (drop_run d i j (by omega) h2 h4).symm
+      · intro c hc
+        rcases List.mem_cons.mp hc with rfl | hc
+        · exact ⟨by omega, by omega⟩
+        · exact c3 c hc
+    · obtain ⟨cs, c1, c2, c3⟩ := ih (d.size - j) (by omega) j h2 rfl
+      have hl := extract_length d i j h2
+      refine ⟨.lit (d.extract i j).toList :: cs, ?_, ?_, ?_⟩
+      · rw [he, c1]
+        simp only [List.flatMap_cons, Chunk.emit, List.cons_append, hl]
+      · simp only [List.flatMap_cons, Chunk.content, c2]
+        exact (drop_extract d i j (by omega) h2).symm
+      · intro c hc
+        rcases List.mem_cons.mp hc with rfl | hc
+        · exact ⟨by rw [hl]; omega, by rw [hl]; omega⟩
+        · exact c3 c hc
+  · refine ⟨[], ?_, ?_, by simp⟩
+    · rw [encFrom_end d i (by omega)]; rfl
+    · simp; omega
+
 end PsdVerif.Rle
